@@ -10,6 +10,7 @@ PAGE = 4096
 F_NOOVER, F_NOEXT, F_PAGE, F_NOSTATS, F_SOLID, F_SYNCBM = 1, 2, 4, 8, 16, 32
 E_NOSPACE, E_NOTALIGNED, E_SEG, E_INVARGS = 74001, 74003, 74004, 70017
 WCAP = 3 * PAGE  # at most this many bytes of a region carry a pattern
+GROW_CAP = 8 * PAGE  # bitmap bytes (262144 blocks) after which a script stops extending the bitmap
 
 
 def variant_of_source():
@@ -379,7 +380,11 @@ def gen_script(rng, impl, nops, focus, scripted=None):
         s = orc.st
         bsz = 1 << s.M[3]
         zr, _ = runs_of(s.B)
-        kind = rng.weighted([("fav", 8), ("small", 6), ("bytes", 3), ("exact", 5), ("page", 2), ("big", 1 if rng.chance(1, 3) else 0), ("zero", 1)])
+        # the bitmap may grow up to GROW_CAP bytes per script; beyond that allocations carry NO_EXTEND (the list-based
+        # model is linear in the bitmap length, a script that keeps doubling it would dominate the whole run)
+        capped = s.M[1] >= GROW_CAP
+        kind = rng.weighted([("fav", 8), ("small", 6), ("bytes", 3), ("exact", 5), ("page", 2),
+                             ("big", 1 if (rng.chance(1, 3) and not capped) else 0), ("zero", 1)])
         fl = flags()
         hint = 0
         if kind == "fav":
@@ -414,6 +419,8 @@ def gen_script(rng, impl, nops, focus, scripted=None):
             hint = rng.choice(zr)[0] * bsz
         if (fl & F_SOLID) and ln > 64 * PAGE:
             fl &= ~F_SOLID
+        if capped:
+            fl |= F_NOEXT
         if not do("alloc %d %d %d" % (ln, hint, fl)):
             return False
         rc, vals, _ = parse_out(outs[-1])
@@ -491,6 +498,8 @@ def gen_script(rng, impl, nops, focus, scripted=None):
         else:
             nl = l - rng.choice([0, 1])
         fl = flags() & ~F_SOLID
+        if orc.st.M[1] >= GROW_CAP:
+            fl |= F_NOEXT
         if not do("realloc %d %d %d %d" % (nl, a, l, fl)):
             return False
         rc, vals, _ = parse_out(outs[-1])
